@@ -238,18 +238,18 @@ func c01Gen(tier string, rng *rand.Rand, emit func(interface{})) {
 	// (b3) extreme tie shapes in one process: one huge tie group (in every position) next to 1..3 small
 	// ones, N = 35..50; before the calls the same process evaluates the exact distributions of ALL the
 	// other extreme shapes of the same (n1,n2) at the same U values (mwRun.WarmT)
+	// (the warm-up of one case costs 141 x 4 evaluations of a tied distribution, ~1 ms each at 25+25:
+	// only the first shape is enumerated completely, the others are sampled in the thorough tier)
 	shapes := [][2]int{{12, 23}}
-	perShape := 1 << 30 // every extreme shape of the quick (n1,n2): 141 cases
 	if thorough {
 		shapes = [][2]int{{12, 23}, {17, 18}, {25, 25}, {10, 25}, {20, 22}}
-		perShape = 1 << 30
 	}
 	for _, sh := range shapes {
 		n1, n2 := sh[0], sh[1]
 		all := extremeTies(n1 + n2)
 		step := 1
-		if len(all) > perShape {
-			step = len(all) / perShape
+		if sh != shapes[0] {
+			step = 6 // ~24 cases per further shape
 		}
 		for k := 0; k < len(all); k += step {
 			t := all[(k+int(rng.Intn(step)))%len(all)]
